@@ -299,6 +299,35 @@ func TestC19(t *testing.T) {
 		w.Judge(ev.Case{Kind: "url", N: int(i), In: encodeScheme("view-source:", all)})
 	})
 
+	// long runs of ignorable characters: 1..100 raw or encoded NUL / LF inside each gap of the scheme,
+	// and 1..100 encoded leading blanks in front of it (decode-step and buffer bounds)
+	var longs []string
+	for _, sc := range c19Schemes {
+		for _, n := range []int{1, 5, 20, 21, 22, 24, 25, 28, 29, 30, 31, 32, 33, 59, 60, 61, 62, 63, 64, 65, 100} {
+			for _, ig := range []string{"\x00", "\n", "&#0;", "&#10;", "&#x0A;"} {
+				run := strings.Repeat(ig, n)
+				for gap := 1; gap < len(sc); gap += 3 {
+					longs = append(longs, sc[:gap]+run+sc[gap:]+"alert(1)")
+				}
+				each := strings.Repeat(ig, 1+n/len(sc))
+				var sb strings.Builder
+				for i := 0; i < len(sc); i++ {
+					sb.WriteByte(sc[i])
+					if i+1 < len(sc) {
+						sb.WriteString(each)
+					}
+				}
+				longs = append(longs, sb.String())
+			}
+			for _, lead := range []string{"&#9;", "&#x20;", "&#32", "&#1;", " ", "\x7f", "\xa0"} {
+				longs = append(longs, strings.Repeat(lead, n)+sc+"x")
+			}
+			longs = append(longs, sc+strings.Repeat("a", n*50))
+		}
+	}
+	p = c.rec.NewPart("long_ignorable_runs", "every scheme with runs of 1..100 raw/encoded NUL/LF in one gap or spread over all gaps, 1..100 leading encoded blanks, long tails", false, true, "")
+	c.ParRange(p, int64(len(longs)), func(w *Worker, i int64) { w.Judge(ev.Case{Kind: "url", N: int(i), In: longs[i]}) })
+
 	ug := rapid.Custom(func(t *rapid.T) string {
 		sc := rapid.SampledFrom(c19Schemes).Draw(t, "scheme")
 		var sb strings.Builder
